@@ -1,0 +1,96 @@
+//! Verification facade.  Compiled only with `--cfg amiquip_verif`; a normal build does
+//! not contain any of this.  Everything here only *exposes* existing crate-private
+//! code to an external harness; it adds no behaviour to the library.
+use crate::connection_options::ConnectionOptions;
+use crate::{Auth, Result};
+use amq_protocol::protocol::connection::{Start, Tune};
+use std::time::Duration;
+
+pub use crate::frame_buffer::FrameBuffer;
+pub use crate::heartbeats::{Heartbeat, HeartbeatState};
+pub use crate::io_loop::verif_probe::*;
+
+/// Constants of the crate, as compiled, for `coq/Gen/Consts.v` (name, value).
+pub fn consts() -> Vec<(&'static str, u64)> {
+    let opts = ConnectionOptions::<Auth>::default();
+    let tuning = crate::ConnectionTuning::default();
+    let (rx, tx) = crate::io_loop::verif_probe::heartbeat_intervals_ms(1).unwrap();
+    let mut v = vec![
+        ("frame_overhead", crate::io_loop::verif_probe::frame_overhead() as u64),
+        ("max_missed_server_heartbeats", crate::io_loop::verif_probe::max_missed() as u64),
+        ("rx_interval_ms_per_s", rx),
+        ("tx_interval_ms_per_s", tx),
+        ("frame_min_size", u64::from(amq_protocol::protocol::constants::FRAME_MIN_SIZE)),
+        ("min_read", input_buffer::MIN_READ as u64),
+        ("reply_queue_bound", crate::io_loop::verif_probe::reply_queue_bound() as u64),
+        ("default_channel_max", u64::from(opts.channel_max)),
+        ("default_frame_max", u64::from(opts.frame_max)),
+        ("default_heartbeat", u64::from(opts.heartbeat)),
+        ("default_mem_channel_bound", tuning.mem_channel_bound as u64),
+        ("default_high_water", tuning.buffered_writes_high_water as u64),
+        ("default_low_water", tuning.buffered_writes_low_water as u64),
+        ("reply_success", u64::from(amq_protocol::protocol::constants::REPLY_SUCCESS)),
+    ];
+    for (i, t) in crate::io_loop::verif_probe::tokens().iter().enumerate() {
+        v.push((["token_stream", "token_heartbeat", "token_alloc", "token_set_blocked"][i], *t as u64));
+    }
+    v
+}
+
+/// The protocol header the out-buffer starts with.
+pub fn protocol_header() -> Vec<u8> {
+    let buf = crate::serialize::OutputBuffer::with_protocol_header();
+    buf[0..].to_vec()
+}
+
+/// `ConnectionOptions::make_tune_ok` on (channel_max, frame_max, heartbeat) of both sides.
+pub fn make_tune_ok(client: (u16, u32, u16), server: (u16, u32, u16)) -> Result<(u16, u32, u16)> {
+    let opts = ConnectionOptions::<Auth>::default()
+        .channel_max(client.0)
+        .frame_max(client.1)
+        .heartbeat(client.2);
+    let ok = opts.make_tune_ok(Tune {
+        channel_max: server.0,
+        frame_max: server.1,
+        heartbeat: server.2,
+    })?;
+    Ok((ok.channel_max, ok.frame_max, ok.heartbeat))
+}
+
+/// `ConnectionOptions::make_start_ok`.
+pub fn make_start_ok(
+    opts: &ConnectionOptions<Auth>,
+    start: Start,
+) -> Result<(amq_protocol::protocol::connection::StartOk, crate::FieldTable)> {
+    opts.make_start_ok(start)
+}
+
+pub struct DecodedUrl {
+    pub amqps: bool,
+    pub host: String,
+    pub port: u16,
+    pub auth: Auth,
+    pub virtual_host: String,
+    pub channel_max: u16,
+    pub frame_max: u32,
+    pub heartbeat: u16,
+    pub connection_timeout: Option<Duration>,
+    pub locale: String,
+}
+
+/// The interpretation of an AMQP URL that `Connection::{insecure_,}open` acts on.
+pub fn decode_url(url: &str) -> Result<DecodedUrl> {
+    let (amqps, host, port, o) = crate::connection::verif_decode(url)?;
+    Ok(DecodedUrl {
+        amqps,
+        host,
+        port,
+        auth: o.auth,
+        virtual_host: o.virtual_host,
+        channel_max: o.channel_max,
+        frame_max: o.frame_max,
+        heartbeat: o.heartbeat,
+        connection_timeout: o.connection_timeout,
+        locale: o.locale,
+    })
+}
